@@ -169,6 +169,7 @@ def sorted_before_use(body, v, from_bb):
 
 def run(rep):
     mir = Mir()
+    _MIR[0] = mir
     rep.explanation = __doc__
     rep.trusted = ['rustc nightly MIR + Instance resolution', 'naga front end, prettyplease, rustfmt are deterministic (not decided)',
                    'dependencies keep no hidden global state that reaches the output']
@@ -331,30 +332,29 @@ def op_local_dest(t):
     return t['dest']['l'] if not t['dest']['p'] else None
 
 
-def rustfmt_gated(body, bb):
-    """block bb executes only on the true edge of a switch whose discriminant is read from field `rustfmt` of
-    WriteOptions"""
+def rustfmt_gated(body, bb, mir=None):
+    """block bb executes only on the true edge of a switch whose discriminant derives from field `rustfmt` of WriteOptions (read in this
+    body, or received through a parameter that every crate caller fills from that field)"""
+    from mirutil import local_is_field_value as local_from_field, place_reads_field
     for g in sorted(body.dominators()[bb]):
         t = body.blocks[g]['term']
         if t['k'] != 'switch':
             continue
         dl = op_local(t['discr'])
         dplace = op_place(t['discr'])
-        hit = False
-        if dplace and any(isinstance(e, dict) and e.get('f') == 'rustfmt' and 'WriteOptions' in e.get('adt', '') for e in dplace['p']):
-            hit = True
+        hit = bool(dplace and place_reads_field(dplace, 'WriteOptions', 'rustfmt'))
         if not hit and dl is not None:
-            _, _, stmts = body.backward_slice([dl], through_calls=False)
-            for _, st in stmts:
-                for p in body.rvalue_places(st['rv']):
-                    if any(isinstance(e, dict) and e.get('f') == 'rustfmt' and 'WriteOptions' in e.get('adt', '') for e in p['p']):
-                        hit = True
+            if mir is None:
+                mir = _MIR[0]
+            hit = local_from_field(mir, body, dl, 'WriteOptions', 'rustfmt')
         if not hit:
             continue
         false_targets = [tgt for v, tgt in t['targets'] if v == 0]
-        # bb must not be reachable from the false edge without re-passing g
         if any(bb in body.reachable_from([ft], avoid={g}) for ft in false_targets):
             continue
         if bb in body.reachable_from([t['otherwise']], avoid={g}):
             return True
     return False
+
+
+_MIR = [None]
